@@ -77,7 +77,7 @@ def gen_packet(rng, tier):
             n = rng.randint(1, 16)
         elif x < 0.90:
             n = rng.randint(17, 70)
-        elif tier == "thorough" and x > 0.985:
+        elif x > (0.985 if tier == "thorough" else 0.99):    # both tiers: maximum-size boundary
             n = rng.choice([1024, 1023, 1022, 1021])
         else:
             n = rng.randint(71, 300)
